@@ -1,2 +1,186 @@
-(* Properties/C20.v — worker pool (being written). *)
-From Verif Require Import Model.PoolLTS Proofs.PoolProofs.
+(* Properties/C20.v — Worker pool: bounded concurrency and every accepted task resolved exactly once.
+
+   The model is the labelled transition system Model/PoolLTS.v (one transition per atomic step of
+   worker_pool.go; unbounded lists of tasks, workers, submitters, queue generations).  A state is
+   reachable when some trace of ANY length, over ANY number of tasks and Resize/Stop calls, leads to it
+   from a started pool of n workers (any n, 0 included).  The theorems quantify over all of that.
+
+   [cfg] = three structural facts of the source; [current_cfg] (Model/PoolCfg.v) takes them from
+   Gen/Facts.v, i.e. from the Go AST of the current /repo on every run:
+     stop_drains      (fix 9607c86)  Stop tells the submitters of still-queued tasks "not executed"
+     overflow_closes  (fix 9607c86)  Resize does the same for tasks that do not fit the new queue
+     stop_locks       (fix for Stop/Resize overlap) Stop holds resizeMu
+   [C20_code_good] is the named obligation that breaks if the source loses one of them; the
+   [C20_needs_...] theorems show each one is necessary (kernel-checked violating traces of the model of
+   the code without it, among them the two defects fixed by 9607c86 and the Stop/Resize overlap).
+
+   Modelled, not verified: Go scheduler/channel/RWMutex/WaitGroup/context semantics as given by the
+   definitions in Model/PoolLTS.v; task bodies terminate (Finish is always enabled for an executing
+   worker); sequentially consistent interleaving; one external Stop call at a time.
+
+   Only statements closed by [exact lemma], Examples and Print Assumptions live here. *)
+From Coq Require Import List Arith Bool ZArith.
+From Verif Require Import Gen.Facts Model.PoolLTS Model.PoolCfg
+  Proofs.PoolProofs Proofs.PoolStr Proofs.PoolFinal.
+Import ListNotations.
+Local Open Scope nat_scope.
+
+(* constants and shapes the model takes for granted, against what the code says now *)
+Theorem C20_facts :
+  (f_pool_queue_factor =? Z.of_nat queue_factor)%Z      (* make(chan Task, maxWorkers*2) in NewWorkerPool and Resize *)
+  && (f_pool_result_buffer =? 1)%Z                      (* result channels have buffer 1: the worker's send cannot block *)
+  && (f_pool_submit_timeout_ns =? 50000000)%Z           (* Submit's 50 ms timer *)
+  && (f_pool_resize_min =? 1)%Z                         (* Resize(n <= 0) means 1 *)
+  && f_pool_submit_rlock                                (* Submit holds closeMu.RLock across check + send *)
+  && f_pool_close_under_lock                            (* Stop closes the queue under closeMu.Lock *)
+  && f_pool_send_nonblocking = true.                    (* worker: select { case ResultChan <- result: default: } *)
+Proof. vm_compute. reflexivity. Qed.
+
+(* the current source has the three repairs *)
+Theorem C20_code_good : good current_cfg.
+Proof. repeat split. Qed.
+
+(* C20, part 1.  Tasks never run concurrently beyond the pool size.  [maxw s] is the size in force (the old
+   size until Resize installs the new queue and workers, the new one afterwards), [rz_target s] the size a
+   Resize in progress is changing to: the first inequality is the stronger one, the second the literal
+   statement "the larger of old and new size while a resize is in progress". *)
+Theorem C20_bounded : forall c, good c -> forall n s, reachable c n s ->
+  executing s <= maxw s /\ executing s <= Nat.max (maxw s) (rz_target s).
+Proof. exact C20_bounded_reach. Qed.
+
+(* C20, part 2.  No task executes twice, and none executes on two workers at once - for EVERY configuration
+   (also the unrepaired ones) and every interleaving, overlapping Stop and Resize included. *)
+Theorem C20_at_most_once : forall c n s, reachable c n s ->
+  NoDup (exec_tasks (workers s) ++ executed s).
+Proof. exact C20_at_most_once_reach. Qed.
+
+(* C20, part 3.  In every quiescent reachable state (no goroutine inside the pool code can take a step; the
+   only things that can still happen are new calls) the pool has not panicked and no submitter is waiting:
+   each has either its own task's result, with the task executed exactly once, or was told "not executed"
+   (closed result channel) / refused (nil channel), with the task never executed by the pool - so
+   ExecuteWithWorker runs it itself exactly once. *)
+Theorem C20_resolved : forall c, good c -> forall n s, reachable c n s -> quiescent c s -> resolved s.
+Proof. exact C20_resolved_reach. Qed.
+
+(* the same three statements about the configuration of the current source *)
+Theorem C20_bounded_current : forall n s, reachable current_cfg n s ->
+  executing s <= maxw s /\ executing s <= Nat.max (maxw s) (rz_target s).
+Proof. exact (C20_bounded_reach current_cfg C20_code_good). Qed.
+Theorem C20_resolved_current : forall n s, reachable current_cfg n s -> quiescent current_cfg s -> resolved s.
+Proof. exact (C20_resolved_reach current_cfg C20_code_good). Qed.
+
+(* the executable quiescence test evaluated by the correspondence monitor implies the quantified one *)
+Theorem C20_quiescentb_sound : forall c s, quiescentb c s = true -> quiescent c s.
+Proof. exact quiescentb_sound. Qed.
+
+(* ---------------- non-vacuity ---------------- *)
+Definition sub3 (t : task) : list label := [SubmitCall t; SubmitBegin t; SubmitEnq t].
+
+(* the bound is attained: two workers, both executing, two more tasks queued, a shrink to 1 in progress *)
+Example C20_bounded_tight :
+  exists s, reachable current_cfg 2 s /\ executing s = 2 /\ maxw s = 2 /\ rz_target s = 1 /\ queued s = [2; 3].
+Proof.
+  eexists. split.
+  - exists (sub3 0 ++ [Take 0] ++ sub3 1 ++ [Take 1] ++ sub3 2 ++ sub3 3 ++ [RzCall 1; RzBegin; RzStop; RzClose]).
+    vm_compute. reflexivity.
+  - vm_compute. repeat split.
+Qed.
+
+(* a quiescent reachable state with every kind of answer: shrink 2 -> 1 with both workers busy and four
+   tasks queued (two do not fit the new queue), a Submit refused while the pool is stopped for the resize,
+   then Stop with one task still queued *)
+Definition resolved_trace : list label :=
+  sub3 0 ++ [Take 0] ++ sub3 1 ++ [Take 1] ++ sub3 2 ++ sub3 3 ++ sub3 4 ++ sub3 5 ++
+  [RzCall 1; RzBegin; RzStop; SubmitCall 6; SubmitBegin 6; RzClose; Finish 0; Finish 1; ExitCtx 0; ExitCtx 1; RzWait;
+   RzDrain; RzDrain; RzDrain; RzDrain; RzDrain; RzSwap; RzReenq; RzReenq; RzReenq; RzReenq; RzReenq;
+   Take 2; StopCall; StopCAS; StopClose; Finish 2; ExitCtx 2; StopWait; StopDrain; StopDrain].
+Example C20_resolved_nontrivial :
+  exists s, reachable current_cfg 2 s /\ quiescent current_cfg s /\
+    subs s = [(6, SRejected); (5, SNotExec); (4, SNotExec); (3, SNotExec); (2, SGot (Some 2)); (1, SGot (Some 1)); (0, SGot (Some 0))] /\
+    executed s = [2; 1; 0] /\ running s = false.
+Proof.
+  eexists. split; [exists resolved_trace; vm_compute; reflexivity|].
+  split; [apply quiescentb_sound; vm_compute; reflexivity|]. vm_compute. repeat split.
+Qed.
+
+(* a state with tasks executing and executed (the NoDup of part 2 is about a non-empty list) *)
+Example C20_at_most_once_nontrivial :
+  exists s, reachable current_cfg 2 s /\ exec_tasks (workers s) = [2; 1] /\ executed s = [0].
+Proof.
+  eexists. split.
+  - exists (sub3 0 ++ [Take 0] ++ sub3 1 ++ [Take 1] ++ sub3 2 ++ [Finish 0; Take 0]). vm_compute. reflexivity.
+  - vm_compute. split; reflexivity.
+Qed.
+
+(* ---------------- each repair is necessary (kernel-checked traces of the models without it) ---------------- *)
+Definition cfg_no_drain : cfg := {| stop_drains := false; overflow_closes := true; stop_locks := true |}.
+Definition cfg_nil_overflow : cfg := {| stop_drains := true; overflow_closes := false; stop_locks := true |}.
+Definition cfg_no_lock : cfg := {| stop_drains := true; overflow_closes := true; stop_locks := false |}.
+
+(* before 9607c86: one worker busy, one task queued behind it, Stop - the worker leaves through ctx.Done, the
+   queue is closed with the task in it, its submitter waits for ever *)
+Theorem C20_needs_stop_drains :
+  exists s, reachable cfg_no_drain 1 s /\ quiescent cfg_no_drain s /\ In (1, SWait) (subs s) /\ ~ resolved s.
+Proof.
+  eexists. split; [exists (sub3 0 ++ [Take 0] ++ sub3 1 ++ [StopCall; StopCAS; StopClose; Finish 0; ExitCtx 0; StopWait]); vm_compute; reflexivity|].
+  split; [apply quiescentb_sound; vm_compute; reflexivity|].
+  assert (I : In (1, SWait) [(1, SWait); (0, SGot (Some 0))]) by (left; reflexivity).
+  split; [exact I|]. intros (_ & R). exact (R _ _ I).
+Qed.
+
+(* before 9607c86: a task that does not fit the smaller queue gets nil on its result channel, which the
+   submitter takes for its result although the task never ran *)
+Theorem C20_needs_overflow_closes :
+  exists s, reachable cfg_nil_overflow 2 s /\ In (5, SGot None) (subs s) /\ cnt 5 (places s) = 0 /\ ~ resolved s.
+Proof.
+  eexists. split.
+  - exists (sub3 0 ++ [Take 0] ++ sub3 1 ++ [Take 1] ++ sub3 2 ++ sub3 3 ++ sub3 4 ++ sub3 5 ++
+      [RzCall 1; RzBegin; RzStop; RzClose; Finish 0; Finish 1; ExitCtx 0; ExitCtx 1; RzWait;
+       RzDrain; RzDrain; RzDrain; RzDrain; RzDrain; RzSwap; RzReenq; RzReenq; RzReenq; RzReenq; RzReenq]).
+    vm_compute. reflexivity.
+  - assert (I : In (5, SGot None) [(5, SGot None); (4, SGot None); (3, SWait); (2, SWait); (1, SGot (Some 1)); (0, SGot (Some 0))])
+      by (left; reflexivity).
+    split; [exact I|]. split; [vm_compute; reflexivity|].
+    intros (_ & R). destruct (R _ _ I) as (V & _). discriminate.
+Qed.
+
+(* without resizeMu in Stop: Resize reads running = 1, an external Stop wins the CAS, Resize's own Stop()
+   returns at once, Resize restarts the pool next to the old worker that is still executing: 3 tasks execute
+   with old size 1 and new size 2 *)
+Theorem C20_needs_stop_locks_bounded :
+  exists s, reachable cfg_no_lock 1 s /\ executing s = 3 /\ Nat.max (maxw s) (rz_target s) = 2.
+Proof.
+  eexists. split.
+  - exists (sub3 0 ++ [Take 0; RzCall 2; RzBegin; StopCall; StopCAS; RzStop; StopClose; RzDrain; RzSwap] ++
+            sub3 1 ++ [Take 1] ++ sub3 2 ++ [Take 2]).
+    vm_compute. reflexivity.
+  - vm_compute. split; reflexivity.
+Qed.
+
+(* without resizeMu in Stop: a Submit is pending on the full queue (holding closeMu.RLock), Stop has done its
+   CAS and waits for the lock, Resize sees running = 0 and closes the old queue WITHOUT the lock: the pending
+   send panics (observed on the real code before the fix: "send on closed channel") *)
+Theorem C20_needs_stop_locks_panic :
+  exists s, reachable cfg_no_lock 1 s /\ panicked s = true /\ In (3, SPanic) (subs s) /\ ~ resolved s.
+Proof.
+  eexists. split.
+  - exists (sub3 0 ++ [Take 0] ++ sub3 1 ++ sub3 2 ++ [SubmitCall 3; SubmitBegin 3; StopCall; StopCAS; RzCall 2; RzBegin; RzStop; SubmitEnq 3]).
+    vm_compute. reflexivity.
+  - split; [reflexivity|]. split; [left; reflexivity|]. intros (P & _). discriminate.
+Qed.
+
+Print Assumptions C20_facts.
+Print Assumptions C20_code_good.
+Print Assumptions C20_bounded.
+Print Assumptions C20_at_most_once.
+Print Assumptions C20_resolved.
+Print Assumptions C20_bounded_current.
+Print Assumptions C20_resolved_current.
+Print Assumptions C20_quiescentb_sound.
+Print Assumptions C20_bounded_tight.
+Print Assumptions C20_resolved_nontrivial.
+Print Assumptions C20_at_most_once_nontrivial.
+Print Assumptions C20_needs_stop_drains.
+Print Assumptions C20_needs_overflow_closes.
+Print Assumptions C20_needs_stop_locks_bounded.
+Print Assumptions C20_needs_stop_locks_panic.
